@@ -1,0 +1,5 @@
+//go:build !verif
+
+package fullrt
+
+func verifPoint(string) {}
